@@ -174,6 +174,28 @@ func normTree(v hx.Sx) string {
 	return hx.String(rec(v))
 }
 
+// checkBufAlias: the spare capacity of event.Buf belongs to whoever appends next (the next action
+// of the chain). An event that changes when those bytes are overwritten holds a node whose data
+// lies beyond len(event.Buf): the plugin appended to a copy of the slice header and did not store it.
+func (r *chainRun) checkBufAlias(e *pipeline.Event, k int) bool {
+	if e.Root == nil || e.IsChildParentKind() || cap(e.Buf) == len(e.Buf) {
+		return true
+	}
+	before := e.Root.Encode(nil)
+	spare := e.Buf[len(e.Buf):cap(e.Buf)]
+	saved := append([]byte(nil), spare...)
+	for i := range spare {
+		spare[i] = '#'
+	}
+	after := e.Root.Encode(nil)
+	copy(spare, saved)
+	if !bytes.Equal(before, after) {
+		r.violate(obsLate, fmt.Sprintf("%s: the event keeps data in the unclaimed capacity of event.Buf: %s becomes %s", r.types[k], clipStr(string(before), 50), clipStr(string(after), 50)))
+		return false
+	}
+	return true
+}
+
 func clipStr(s string, n int) string {
 	if len(s) > n {
 		return s[:n] + "..."
@@ -203,6 +225,9 @@ func (r *chainRun) doActions(e *pipeline.Event, from int) bool {
 		case pipeline.ActionPass:
 			r.busy[k] = false
 			if !r.checkEvent(e, k, "passed") {
+				return false
+			}
+			if !r.checkBufAlias(e, k) {
 				return false
 			}
 		case pipeline.ActionBreak:
@@ -319,7 +344,8 @@ func execChain(cs hx.Sx, stats map[string]int) hx.Sx {
 		if hasK8s {
 			addK8sMeta(root)
 		}
-		e := &pipeline.Event{Root: root, Size: int(hx.Int(f[1])), SourceName: "k8s/x.log", SeqID: uint64(i + 1), Offset: int64(i)}
+		// a pooled event keeps the capacity of its Buf from its previous life (Event.reset: Buf[:0])
+		e := &pipeline.Event{Root: root, Buf: make([]byte, 0, 512), Size: int(hx.Int(f[1])), SourceName: "k8s/x.log", SeqID: uint64(i + 1), Offset: int64(i)}
 		if r.doActions(e, 0) {
 			r.out(e)
 		}
